@@ -219,7 +219,6 @@ impl<L: Language, N: Analysis<L>> EGraph<L, N> {
     fn determine_self_symmetries(&mut self, src_id: Id) {
         let pc1 = self.pc_from_src_id(src_id);
 
-        let i = pc1.target_id();
         let weak = pc1.node.elem.weak_shape().0;
         for pn2 in self.proven_proven_get_group_compatible_variants(&pc1.node) {
             let pc2 = ProvenContains {
@@ -238,29 +237,13 @@ impl<L: Language, N: Analysis<L>> EGraph<L, N> {
                     assert_eq!(pc1.target_id(), pc2.target_id());
                 }
 
-                #[allow(unused)]
                 let (a, b, proof) = self.pc_congruence(&pc1, &pc2);
 
-                // or is it the opposite direction? (flip a with b)
-                let perm = a.m.compose(&b.m.inverse());
-
-                let proven_perm = ProvenPerm {
-                    elem: perm,
-
-                    #[cfg(feature = "explanations")]
-                    proof,
-
-                    #[cfg(feature = "explanations")]
-                    reg: self.proof_registry.clone(),
-                };
-
-                if CHECKS {
-                    proven_perm.check();
-                }
-                let grp = &mut self.classes.get_mut(&i).unwrap().group;
-                if grp.add(proven_perm) {
-                    self.touched_class(i, PendingType::Full);
-                }
+                // `a` and `b` are invocations of the class `i` that are equal by congruence.
+                // If they use the same slots, this is a self-symmetry.
+                // Otherwise (a child symmetry exchanges a redundant with a non-redundant slot) some slots are redundant.
+                // union_internal handles both cases.
+                self.union_internal(&a, &b, proof);
             }
         }
     }
